@@ -140,3 +140,40 @@ Proof.
   apply rd_fields_len in E.
   pose proof (present_common_le (nf_dom ver h) (nf_size ver h) ver (length d1) (S (length d1)) st 0 d1). lia.
 Qed.
+
+(* ---- sFlow: one message per flow sample, and every sample occupies at least 20 bytes of the datagram ---- *)
+From GF Require Import Model.SFlow Model.ProdSF Proofs.AllocP Proofs.PacketP.
+
+Lemma filter_len_le {A} (f : A -> bool) l : (length (filter f l) <= length l)%nat.
+Proof. induction l as [|x r IH]; cbn [filter length]; [lia|]. destruct (f x); cbn [length]; lia. Qed.
+
+Lemma flow_filter_nil n :
+  filter (fun s => match sKind s with SFlowS | SExpFlowS => true | _ => false end) (repeat nil_sample n) = [].
+Proof. induction n as [|k IH]; [reflexivity|]. cbn [repeat filter nil_sample sKind]. exact IH. Qed.
+
+Lemma decode_sf_flow_present d p : decode_sf d = Ok p -> (20 * length (flow_samples p) <= length d)%nat.
+Proof.
+  unfold decode_sf. intros H.
+  destruct (rd 4 d) as [[ver d0]| | |] eqn:E0; try discriminate. apply rd_len in E0.
+  destruct (negb (ver =? 5)); [discriminate|].
+  destruct (rd 4 d0) as [[ipv d1]| | |] eqn:E1; try discriminate. apply rd_len in E1.
+  match type of H with (match ?x with _ => _ end) = _ => destruct x as [[ip d2]| | |] eqn:E2; try discriminate end.
+  assert (L2 : (length d2 <= length d1)%nat).
+  { destruct (ipv =? 1); [apply read_len in E2; lia|]. destruct (ipv =? 2); [apply read_len in E2; lia|discriminate]. }
+  destruct (rd_fields (u32s 4) d2) as [[vs d3]| | |] eqn:E3; try discriminate. apply rd_fields_len in E3.
+  cbv zeta in H. destruct (1000 <? nth 3 vs 0); [discriminate|].
+  destruct (dec_samples (N.to_nat (nth 3 vs 0)) d3) as [ss| | |] eqn:Es; try discriminate.
+  inversion H; subst. unfold flow_samples. cbn [kSamples].
+  rewrite filter_app, flow_filter_nil, app_nil_r.
+  apply dec_samples_len in Es. destruct Es as (_ & B & _).
+  pose proof (filter_len_le (fun s => match sKind s with SFlowS | SExpFlowS => true | _ => false end) ss). lia.
+Qed.
+
+Lemma sf_step_none_invented cfg st e tr d st' o ms :
+  sf_step cfg st e tr d = Ok (st', o, ms) -> (20 * length ms <= length d)%nat.
+Proof.
+  unfold sf_step. intros H.
+  destruct (decode_sf d) as [p| | |] eqn:Ed; try discriminate; [|inversion H; subst; cbn; lia].
+  destruct (produce_sf (pPacket cfg) tr p) as [ms0| | |] eqn:Ep; try discriminate; [|inversion H; subst; cbn; lia].
+  inversion H; subst. apply produce_sf_count in Ep. rewrite Ep. apply decode_sf_flow_present. exact Ed.
+Qed.
